@@ -909,3 +909,15 @@ theorem rejoinAfterError_res {s : St} (h : WInv s) (cfg : Cfg) (e : GErr)
       obtain ⟨p1, p2⟩ := rejoinWith_rejoin_post h cfg _ hcl ha hst
       exact ⟨w, hb1, fun hn => rejoinWith_noheld hn _ _, Or.inl ⟨c.stopping, c.jpc, c.rejoinD, c.hbRunning, c.started,
         c.startResult, rejoinWith_timers_mono _ _ _, Or.inr ⟨hst, p1, Or.inl p2⟩⟩⟩
+
+/-- `abandonHb` as one state update: the marker is cleared; the cancellation is observed when a
+    heartbeat was outstanding -/
+theorem abandonHb_eq (s : St) :
+    abandonHb s = ({ s with hbInFlight := false }, if s.hbInFlight then [.cancelReq .hbR] else []) := by
+  unfold abandonHb
+  split
+  · rfl
+  · rename_i h
+    have : s.hbInFlight = false := by simpa using h
+    cases s
+    simp_all
